@@ -179,6 +179,22 @@ Section ItemLevel.
     now rewrite !pre_andthen, pre_emit.
   Qed.
 
+  (* a single-line 5xx reply to a command with a per-line callback *)
+  Theorem reply_err_cb_single s i cm :
+    at_rest s -> p_inflight s = Some cm -> ccb (cl cm) = true -> iparts i = [] ->
+    wf_item i = true -> is_5xx (icode i) = true -> item_fits i = true ->
+    lines_received lbehs s (render_lines i) =
+    finish_cmd (upd_fsm s IDLE (Some (icode i)) []) [] cm (RErr (icode i) (item_text i)).
+  Proof.
+    intros R Hi Hcb Hp Hwf H5 Hfit. destruct (wf_item_facts i Hwf) as (Hc & Ha & Hnl & _).
+    destruct (code_classes5 _ H5) as [E2 E6].
+    rewrite reads_item_lines by assumption. cbv zeta. unfold body_lines. rewrite Hp. cbn [map concat].
+    assert (Hcbo : cb_of s (icode i) = Some (cid (cl cm))) by (unfold cb_of; rewrite E6, Hi, Hcb; reflexivity).
+    rewrite Hcbo. cbn [acc_obs acc_resp map concat]. rewrite andthen_emit_nil.
+    rewrite (broadcast_final s IDLE (icode i) _ (ifinal i) cm) by (destruct Hc; assumption).
+    rewrite E2, H5. unfold item_text, item_lines. rewrite Hp. cbn [map concat app join]. reflexivity.
+  Qed.
+
   (* outside finding C01-F1's input class, the callback sees exactly Spec's cb_lines *)
   Definition no_oklike (i : item) : bool :=
     forallb (fun l => negb (beqb (strip l) OKs)) (body_lines i)
